@@ -4,7 +4,7 @@ Hand-written catalogue of changes the checks must catch ("violation") and of beh
 must not flag ("clean"). Used by `./verif.sh selftest sensitivity`."""
 import json, os, subprocess, shutil, sys, tempfile
 
-V1 = "pkg/pow/worker.go"; V2 = "pkg/pow/v2/worker.go"; V2P = "pkg/pow/v2/pow.go"
+V1 = "pkg/pow/worker.go"; V2 = "pkg/pow/v2/worker.go"; V2P = "pkg/pow/v2/pow.go"; V1P = "pkg/pow/pow.go"
 S = "pkg/slip10/slip10.go"; C = "pkg/curl/curl.go"
 
 M = [
@@ -30,6 +30,7 @@ M = [
  ("m19-c13-done-flag-in-worker-struct", "C13", "violation", V2, "type Worker struct {\n\tnumWorkers int\n}", "type Worker struct {\n\tnumWorkers int\n\tdone       uint32 // stop flag of the current Mine call\n}", "the stop flag lives in the Worker and is never reset: the SECOND Mine call on the same Worker finds it raised and returns the cancellation error although its context was never cancelled - needs a Worker reused across calls"),
  ("m23-c13-caller-sleeps-45s-after-cancelled-join", "C13", "violation", V2, "\twg.Wait()\n\tsimYield(\"mine.joined\", simCaller)\n", "\twg.Wait()\n\tif ctx.Err() != nil {\n\t\ttime.Sleep(45 * time.Second) // let the machine cool down before the next attempt\n\t}\n\tsimYield(\"mine.joined\", simCaller)\n", "after a cancelled search the caller sleeps 45 s before it returns: every goroutine of the call sits on a timer, nothing hangs, nothing leaks - only simulated time tells (slow-after-cancel)"),
  ("m24-c13-caller-sleeps-200ms-after-cancelled-join", "C13", "clean", V2, "\twg.Wait()\n\tsimYield(\"mine.joined\", simCaller)\n", "\twg.Wait()\n\tif ctx.Err() != nil {\n\t\ttime.Sleep(200 * time.Millisecond)\n\t}\n\tsimYield(\"mine.joined\", simCaller)\n", "the same with 200 ms: still a short bounded time"),
+ ("m25-c13-score-trit-buffer-shared", "C13", "violation", V1P, "\t// allocate exactly one Curl block\n\tbuf := make(trinary.Trits, consts.HashTrinarySize)\n", "\t// one Curl block, allocated once\n\tbuf := scoreBuf\n", "Score keeps its 243-trit input block in a package variable: every sequential use is right; two goroutines evaluating Score at the same time (or one next to a running Mine, which calls nothing of Score - but the application does) write the same buffer: a data race, and now and then the score of the other message"),
  ("m20-c11-one-trit-fewer", "C11", "violation", V1, "\tfor i := consts.HashTrinarySize - n; i < consts.HashTrinarySize; i++ {", "\tfor i := consts.HashTrinarySize - n + 1; i < consts.HashTrinarySize; i++ {", "lane test checks one trailing trit fewer than required"),
  ("m21-c11-overshoot-zeros", "C11", "clean", V1, "\tfor zeros <= consts.HashTrinarySize && score(zeros) < targetScore {", "\tfor zeros <= consts.HashTrinarySize-1 && score(zeros) <= targetScore {", "requires one zero more at exact boundaries: slower but sound"),
  ("m22-c11-estimate-only", "C11", "violation", V1, "\tfor zeros <= consts.HashTrinarySize && score(zeros) < targetScore {\n\t\tzeros++\n\t}\n", "", "upward correction dropped: targets just above 3^k/len come out one zero short"),
@@ -51,6 +52,8 @@ M = [
  ("m52-c06-rate-not-cleared", "C06", "violation", C, "\t\tfor j := 0; j < consts.HashTrinarySize; j++ {\n\t\t\tc.l[j], c.h[j] = ^uint(0), ^uint(0)\n\t\t}\n", "", "rate not reset before a block: second and later blocks are ANDed with the old rate"),
  ("m53-c06-out-lane-mask-narrow", "C06", "violation", C, "\tidx &= bits.UintSize - 1           // hint to the compiler that shifts don't need guard code\n\tfor i := 0; i < consts.HashTrinarySize; i++ {\n\t\tdst[i]", "\tidx &= bits.UintSize/2 - 1         // hint to the compiler that shifts don't need guard code\n\tfor i := 0; i < consts.HashTrinarySize; i++ {\n\t\tdst[i]", "lanes 32..63 read lanes 0..31"),
  ("m54-c06-clone-struct-copy", "C06", "clean", C, "\treturn &Curl{\n\t\tl:         c.l,\n\t\th:         c.h,\n\t\tdirection: c.direction,\n\t}", "\tcp := *c\n\treturn &cp", "behaviour preserving"),
+ ("m56-c06-squeeze-outputs-carved-one-allocation", "C06", "violation", C, "\tfor j := range dst {\n\t\tdst[j] = make(trinary.Trits, tritsCount)\n\t}\n", "\tflat := make(trinary.Trits, len(dst)*tritsCount)\n\tfor j := range dst {\n\t\tdst[j] = flat[j*tritsCount : (j+1)*tritsCount]\n\t}\n", "one allocation for all lanes' outputs, each lane a plain sub-slice: lane j's capacity runs into lane j+1's trits, a caller appending to lane j's hash overwrites lane j+1's"),
+ ("m57-c06-squeeze-outputs-carved-capacity-limited", "C06", "clean", C, "\tfor j := range dst {\n\t\tdst[j] = make(trinary.Trits, tritsCount)\n\t}\n", "\tflat := make(trinary.Trits, len(dst)*tritsCount)\n\tfor j := range dst {\n\t\tdst[j] = flat[j*tritsCount : (j+1)*tritsCount : (j+1)*tritsCount]\n\t}\n", "the same with full slice expressions: behaviour preserving"),
  ("m55-c06-transform-before-every-squeeze", "C06", "violation", C, "\t\tif c.direction == SpongeSqueezing {\n\t\t\tc.transform()\n\t\t}\n\t\tc.direction = SpongeSqueezing", "\t\tif c.direction == SpongeSqueezing || i > 0 {\n\t\t\tc.transform()\n\t\t}\n\t\tif i+consts.HashTrinarySize >= tritsCount {\n\t\t\tc.direction = SpongeSqueezing\n\t\t}", "direction only recorded at the end of a multi-block squeeze: fine within one call, wrong across calls? (same result) - expected clean if equivalent"),
 ]
 # m55 is in fact equivalent (transform happens before block i>0 either way); mark clean
@@ -60,6 +63,7 @@ FIX = {"m19-c13-done-flag-in-worker-struct": [("\t\tdone    uint32\n", ""), ("at
        "m18-c11-digest-cached-by-length": [("const ln3 = ", "var digestCache = map[int][]byte{}\n\nconst ln3 = ")],
        "m23-c13-caller-sleeps-45s-after-cancelled-join": [("\t\"sync/atomic\"\n", "\t\"sync/atomic\"\n\t\"time\"\n")],
        "m24-c13-caller-sleeps-200ms-after-cancelled-join": [("\t\"sync/atomic\"\n", "\t\"sync/atomic\"\n\t\"time\"\n")],
+       "m25-c13-score-trit-buffer-shared": [("func trailingZeros(", "var scoreBuf = make(trinary.Trits, consts.HashTrinarySize)\n\nfunc trailingZeros(")],
        "m17-c13-watcher-polls-with-ticker": [("\t\"sync/atomic\"\n", "\t\"sync/atomic\"\n\t\"time\"\n")],
        "m15-c13-finders-serialised-by-mutex": [("\t\twg      sync.WaitGroup\n", "\t\twg      sync.WaitGroup\n\t\tfindMu  sync.Mutex\n")],
        "m16-c13-mutex-deadlock-on-cancel": [("\t\twg      sync.WaitGroup\n", "\t\twg      sync.WaitGroup\n\t\tfindMu  sync.Mutex\n"), ("results = make(chan uint64, w.numWorkers)", "results = make(chan uint64)")],
